@@ -185,7 +185,16 @@ impl SetSketchParams {
         //
         let loadfile = fileres.unwrap();
         let reader = BufReader::new(loadfile);
-        let hll_parameters: Self = serde_json::from_reader(reader).unwrap();
+        let parse_res: Result<Self, serde_json::Error> = serde_json::from_reader(reader);
+        if parse_res.is_err() {
+            // file is empty, truncated (crash during a dump) or not a parameter dump
+            log::error!(
+                "SetSketchParams reload_json : could not parse file {:?}",
+                filepath.as_os_str()
+            );
+            return Err("SetSketchParams reload_json could not parse file".to_string());
+        }
+        let hll_parameters: Self = parse_res.unwrap();
         //
         Ok(hll_parameters)
     } // end of reload_json
